@@ -42,8 +42,9 @@ impl Buffer {
         if self.have < 0 {
             self.state.refill(drounds, &mut self.out);
             self.have += BLOCK as i8;
-            // checked in seek()
-            self.len -= 1;
+            // checked in seek(); a fresh 64-bit stream has 2^64 blocks left, so this wraps
+            self.len = self.len.wrapping_sub(1);
+            self.fresh = false;
         }
         let mut have = self.have as usize;
         let have_ready = cmp::min(have, data.len());
